@@ -1,0 +1,14 @@
+//go:build verif
+
+package curl
+
+// Transform exposes the build's permutation (the assembly on amd64 unless purego is set)
+// for differential verification runs. Only compiled with the "verif" build tag.
+func Transform(lto, hto, lfrom, hfrom *[StateSize]uint) {
+	transform(lto, hto, lfrom, hfrom)
+}
+
+// TransformGeneric exposes the portable permutation for differential verification runs.
+func TransformGeneric(lto, hto, lfrom, hfrom *[StateSize]uint) {
+	transformGeneric(lto, hto, lfrom, hfrom)
+}
